@@ -232,6 +232,8 @@ func declaredTooLong(cs Case) bool {
 
 var excludedDeclared int
 
+const hangAfter = 150 * time.Second
+
 func run(c *h.Ctx, cs Case) {
 	tg, ok := targets[cs.Target]
 	if !ok {
@@ -254,7 +256,24 @@ func run(c *h.Ctx, cs Case) {
 	var ms0, ms1 runtime.MemStats
 	runtime.ReadMemStats(&ms0)
 	t0 := time.Now()
-	pn, pv, stack := h.Try(func() { tg.call(cs) })
+	// "always terminates": the call runs beside a watchdog. Inputs here are at most a few hundred KB and come back in
+	// milliseconds (the slowest scaling families in seconds); a call that is still out after hangAfter is reported as
+	// not terminating, with the case on disk - the process ends there, a spinning call cannot be stopped.
+	var pn bool
+	var pv any
+	var stack string
+	done := make(chan struct{})
+	go func() {
+		defer close(done)
+		pn, pv, stack = h.Try(func() { tg.call(cs) })
+	}()
+	wd := time.NewTimer(hangAfter)
+	select {
+	case <-done:
+		wd.Stop()
+	case <-wd.C:
+		c.FailExit("C09/hang/"+cs.Target+"/"+cs.Fam, "%s has not returned after %s on a %s input (%d bytes): %s", cs.Target, hangAfter, cs.Fam, inputLen(cs), sampleOf(cs))
+	}
 	dur := time.Since(t0)
 	runtime.ReadMemStats(&ms1)
 	alloc := ms1.TotalAlloc - ms0.TotalAlloc
@@ -800,12 +819,27 @@ func TestLikePairs(t *testing.T) {
 	P.Sample(map[string]any{"enumeration": "all like pattern/subject pairs over {a,b,*,\\}", "max_len": maxLen, "pairs": n})
 }
 
+var selAtoms = []string{".", "a", "foo", `["`, `"]`, `"`, `\"`, `\\`, `\`, "[", "]", "?", ":", "0", "1", "-1", "-", "é", " ", "[]", `["a"]`, `["a\"b"]`, `["\""]`, "[0]", "[1:]", "[:-1]", "..", `\"]`, `["\`, "'", "\x00", "\n", "9223372036854775808", "[-", "]?", "?.", `"."`, `"["`}
+
 var stringProp = h.Define(P, "strings", func(t *rapid.T) Case {
 	tgt := rapid.SampledFrom(stringTargets).Draw(t, "stgt")
 	var s string
 	switch tgt {
 	case "selector.Parse":
 		s = rapid.StringOfN(rapid.RuneFrom([]rune(`.[]"?\:a0-é 9`)), 0, 40, -1).Draw(t, "sel")
+		if rapid.IntRange(0, 2).Draw(t, "selatoms") > 0 {
+			// built from the pieces selectors are made of (and their halves), so that quoted names with escapes,
+			// nested and unbalanced brackets, signs and ranges come up at every length
+			n := rapid.IntRange(0, 14).Draw(t, "natoms")
+			var b strings.Builder
+			if rapid.IntRange(0, 9).Draw(t, "dot") > 0 {
+				b.WriteString(".")
+			}
+			for i := 0; i < n; i++ {
+				b.WriteString(rapid.SampledFrom(selAtoms).Draw(t, "atom"))
+			}
+			s = b.String()
+		}
 		if rapid.IntRange(0, 9).Draw(t, "bignum") == 0 {
 			s = ".[" + strings.Repeat("9", rapid.IntRange(1, 40).Draw(t, "digits")) + rapid.SampledFrom([]string{"]", ":]", ":", ""}).Draw(t, "tail")
 		}
